@@ -52,6 +52,7 @@ CLI_POOL = {
     "walrus": "data = [1, 2, 3]\nif (n := len(data)) > 2:\n    msg = f'{n} items'\nelse:\n    msg = 'few'\nprint(msg, n)\n",
     "decor": "def twice(fn):\n    return lambda *a: fn(*a) * 2\n@twice\ndef h(v):\n    return v + 1\nu = h(2)\nprint(u)\n",
     "bytes": "b = b'\\x00\\xffab'\nprint(b, len(b), 0x10, 1e3, 2j)\n",
+    "multiline_strings": "doc = \'\'\'line one\nline two\n\nline four\'\'\'\nf = f\"\"\"a\n{len(doc)}\nb\"\"\"\nprint(len(doc), doc.count(chr(10)), f)\n",
     "ellipsis_tail": "x = 1\nif x:\n    pass\nelse:\n    ...\n",
     "mentions_paths": "names = ['out.txt', 'in.py', '-o', '-Cunparser=oneliner', 'r\u00e9sultat.txt']\nprint(names, __name__ == '__main__')\n",
     "print_alias": "p = print\nshow = lambda *a: p('>', *a)\nshow('x', 1)\np(len('abc'))\n",
@@ -61,6 +62,28 @@ CLI_POOL = {
 
 # contents-level variants (bytes -> how the text layer of the CLI sees them)
 VARIANT_KINDS = ["plain", "plain", "plain", "crlf", "bom", "trailing_ws", "no_final_newline"]
+
+def _block_boundary_input() -> bytes:
+    """A CR LF script larger than the usual buffer sizes whose line terminators and multi-byte
+    characters straddle the power-of-two offsets 4096 ... 131072 INSIDE a multi-line string literal:
+    at each boundary B either the CR of a CR LF pair is the byte B-1, or a 3-byte character starts at
+    B-1.  Readers that translate newlines or decode UTF-8 block by block by hand get it wrong."""
+    out = bytearray(b's = """start\r\n')
+    k = 12
+    while k <= 17:
+        B = 1 << k
+        # fill with 61-byte lines up to just before the boundary
+        while len(out) + 64 < B - 1:
+            out += b"x" * 61 + b"\r\n"
+        pad = (B - 1) - len(out)
+        if k % 2 == 0:
+            out += b"y" * pad + b"\r\n"            # CR is byte B-1, LF is byte B
+        else:
+            out += b"z" * pad + "\u4e2d".encode("utf-8") + b"\r\n"   # the 3-byte character starts at B-1
+        k += 1
+    out += b'end"""\r\nprint(len(s), s.count(chr(10)), s.count(chr(13)))\r\n'
+    return bytes(out)
+
 
 SPECIAL_INPUTS = {
     # name: (bytes, note)
@@ -80,6 +103,7 @@ SPECIAL_INPUTS = {
     "lone_cr_in_string": b"s = 'a\\rb'\nt = \"\"\"x\r\ny\rz\"\"\"\nprint(len(s), len(t))\n",
     "formfeed": b"x = 1\n\x0c\ny = 2\nprint(x + y)\n",
     "unicode_linesep": "s = 'a\u2028b\u2029c\x85d'\nt = f'{s}\u2028{len(s)}'\nprint(len(s), len(t), ascii(s))\n".encode("utf-8"),
+    "block_boundaries": _block_boundary_input(),
     "blank_line_in_string": b's = """first\n    \n\t\nlast  """\nprint(len(s), repr(s))\n',
     "indented_whole": b"    x = 1\n    print(x)\n",
     "trailing_space_lines": b"a = 1   \n\n   \nb = 'x  '   \nprint(a, b)\n   ",
@@ -135,7 +159,13 @@ def child_cli(desc: dict) -> dict:
                plan=[f for f in (desc.get("plan") or []) if f.get("op") != "line"], knobs=desc.get("knobs"))
     fs.set_mtimes(fsd.get("mtimes"))
     fs.fifos = {SimFS.norm(pth) for pth in fsd.get("fifos", [])}
-    initial = fs.snapshot()
+    fs.set_links(fsd.get("links"))
+    keep = set()
+    if desc.get("out_path") is not None:
+        keep.add(fs.resolve(SimFS.norm(desc["out_path"])))
+        keep.add(SimFS.norm(desc["out_path"]))
+        keep.update(SimFS.norm(v) for v in (fsd.get("links") or {}).values())
+    initial = fs.snapshot(keep)
     patches = Patches(fs)
     old = (sys.argv, sys.stdout, sys.stderr)
     err = io.StringIO()
@@ -209,7 +239,7 @@ def child_cli(desc: dict) -> dict:
     del out_obj
     return {
         "status": status, "exc": exc, "stdout": bytes(fs.stdout_bytes).hex(), "stderr": err.getvalue()[-1500:],
-        "initial": initial, "final": fs.snapshot(), "history": fs.history, "mutations": fs.mutations,
+        "initial": initial, "final": fs.snapshot(keep), "history": fs.history, "mutations": fs.mutations,
         "fired": fs.fired, "passthrough": fs.passthrough, "points": fs.seq, "main_lines": main_lines[0],
     }
 
@@ -376,6 +406,7 @@ def gen_base(seed: int, attr_names=None) -> dict:
     out_path = rng.choice(["out.txt", "out.txt", "build/out.py", "r\u00e9sultat.txt", "out[1].txt", "my out.txt", "./out.txt",
                            "build/../out2.txt", "~out.txt", "out.txt~", "~/out.txt", "0", "None"])
     files, dirs, ro, unreadable = {}, set(), [], []
+    links: dict = {}
     for p in (in_path, out_path):
         if "/" in p:
             dirs.add(p.rsplit("/", 1)[0])
@@ -419,7 +450,7 @@ def gen_base(seed: int, attr_names=None) -> dict:
     if out_mode != "stdout":
         out_state = rng.choice(["absent", "absent", "absent", "shorter", "shorter", "longer", "longer", "same_as_in", "same_as_in",
                                 "missing_dir", "missing_dir", "is_dir", "is_dir", "not_writable", "not_writable", "ro_dir", "ro_dir",
-                                "empty_name"])
+                                "empty_name", "symlink_longer", "symlink_longer", "symlink_dangling"])
         if out_state == "shorter":
             files[out_path] = b"old"
         elif out_state == "longer":
@@ -438,6 +469,11 @@ def gen_base(seed: int, attr_names=None) -> dict:
             ro.append(out_path)
         elif out_state == "empty_name":
             out_path = ""
+        elif out_state in ("symlink_longer", "symlink_dangling"):
+            # OUT is a symbolic link; reading OUT afterwards must yield the text whichever way it is written
+            links[out_path] = "real_target.txt"
+            if out_state == "symlink_longer":
+                files["real_target.txt"] = b"%" * 7000
         elif out_state == "ro_dir":
             out_path = "rodir/out.txt"
             dirs.add("rodir")
@@ -497,7 +533,7 @@ def gen_base(seed: int, attr_names=None) -> dict:
         "in_path": in_path, "out_path": None if out_mode == "stdout" else out_path, "in_state": in_state,
         "out_state": out_state, "prog": prog, "variant": variant, "special": special,
         "fs": {"files": {p: files[p].hex() for p in sorted(files)}, "dirs": sorted(dirs), "ro": ro, "unreadable": unreadable,
-               "fifos": [in_path] if in_fifo and out_state != "same_as_in" else []},
+               "fifos": [in_path] if in_fifo and out_state != "same_as_in" else [], "links": links},
         "roles": roles, "knobs": knobs, "plan": [],
     })
 
@@ -539,8 +575,14 @@ def follow_up(base: dict, res: dict, seed: int):
     d["seed"] = seed
     d["plan"] = []
     files = {}
+    base_by_norm = {SimFS.norm(k): v for k, v in base["fs"]["files"].items()}
     for pth, h in res["final"]["files"].items():
         rel = pth[len(CWD) + 1:] if pth.startswith(CWD + "/") else pth
+        if h.startswith("#sha256:"):
+            # a large file represented by its digest: it can only be an untouched input
+            if res["initial"]["files"].get(pth) != h or pth not in base_by_norm:
+                return None
+            h = base_by_norm[pth]
         files[rel] = h
     # keep the caller's spelling of IN as key
     in_norm = SimFS.norm(base["in_path"])
@@ -608,8 +650,21 @@ def fault_points(result: dict) -> list:
     return pts
 
 
-def single_fault_plans(result: dict) -> list:
+def single_fault_plans(result: dict, desc: dict | None = None) -> list:
     plans = []
+    # short reads that end exactly after a carriage return of a CR LF pair (hand-rolled newline
+    # translation over blocks), at up to 8 such offsets of the input
+    cr_offsets = []
+    if desc is not None and desc.get("in_state") == "present":
+        try:
+            data = bytes.fromhex(desc["fs"]["files"][desc["in_path"]])
+            cr_offsets = [i + 1 for i in range(len(data) - 1) if data[i:i + 2] == b"\r\n"]
+            if len(cr_offsets) > 8:
+                step = len(cr_offsets) / 8.0
+                cr_offsets = [cr_offsets[int(j * step)] for j in range(8)]
+        except (KeyError, ValueError):
+            cr_offsets = []
+    first_in_read = True
     for seq, op, role in fault_points(result):
         kinds = list(FAULT_KINDS[op])
         if role == "STDOUT" and op == "write":
@@ -619,6 +674,10 @@ def single_fault_plans(result: dict) -> list:
             if k == "short":
                 plans.append([dict(f, n=1)])
                 plans.append([dict(f, n=1 << 20)])  # all but one byte
+                if op == "read" and role == "IN" and first_in_read:
+                    first_in_read = False
+                    for off in cr_offsets:
+                        plans.append([dict(f, n=off)])
             else:
                 plans.append([f])
                 if k in PERSISTENT_KINDS.get(op, ()):
@@ -736,8 +795,12 @@ def judge(ctx: C16Ctx, desc: dict, res: dict) -> list:
         # contradictory values for one option: any candidate result is accepted, and so is refusing
         # the command line; only a successful run with a text that matches NO candidate is wrong
         if status == 0 and all(e["out"] == "ok" for e in exps):
+            out_res = out_p
+            for _ in range(8):
+                if out_res in (final.get("links") or {}):
+                    out_res = final["links"][out_res]
             raw = bytes.fromhex(res["stdout"]) if desc["out_mode"] == "stdout" else (
-                bytes.fromhex(final["files"][out_p]) if out_p in final["files"] else None)
+                bytes.fromhex(final["files"][out_res]) if out_res in final["files"] else None)
             good = False
             if raw is not None:
                 try:
@@ -792,8 +855,12 @@ def judge(ctx: C16Ctx, desc: dict, res: dict) -> list:
     # (missing directory, a directory, read-only) failing is permitted, and succeeding is fine only
     # if OUT really holds the text afterwards (e.g. the directory was created, or the read-only
     # file was replaced by a rename)
-    creatable = desc["out_state"] in ("absent", "shorter", "longer", "same_as_in")
-    out_bytes = bytes.fromhex(final["files"][out_p]) if out_p in final["files"] else None
+    creatable = desc["out_state"] in ("absent", "shorter", "longer", "same_as_in", "symlink_longer", "symlink_dangling")
+    out_real = out_p
+    for _ in range(8):
+        if out_real in (final.get("links") or {}):
+            out_real = final["links"][out_real]
+    out_bytes = bytes.fromhex(final["files"][out_real]) if out_real in final["files"] else None
     ok, how = (False, "missing") if out_bytes is None else text_ok(out_bytes, False)
     if status == 0 and not ok:
         viol("P4" if fired else "P1", "exit0-but-output-" + how, fired=fired, out_state=desc["out_state"])
@@ -801,7 +868,8 @@ def judge(ctx: C16Ctx, desc: dict, res: dict) -> list:
         viol("P4" if fired else "P1", "failed-without-error-fault", status=status, exc=res["exc"], fired=fired)
     # files that existed before and are not OUT must be unchanged; new files next to OUT (a
     # backup, a lock file) are not forbidden by the statement
-    others = [p for p in changed if p != out_p and p in initial["files"]]
+    link_targets = set((initial.get("links") or {}).values())
+    others = [p for p in changed if p != out_p and p in initial["files"] and not (p in link_targets and desc["out_state"].startswith("symlink"))]
     if others:
         viol("P1", "other-file-changed", paths=others)
     return V
@@ -891,7 +959,7 @@ def register(tpl):
                                        "status": res["status"], "exc": res["exc"],
                                        "io_history": [[op, role, r if isinstance(r, str) else "n=%s" % r] for _, op, role, _, r in res["history"]][:30]})
             if req.get("faults", True):
-                plans = single_fault_plans(res)
+                plans = single_fault_plans(res, base)
                 # seeded multi-fault plans (2-3 faults) on top of the exhaustive single-fault sweep
                 singles = [p[0] for p in plans]
                 for _ in range(min(req.get("multi", 3), len(singles) // 2)):
